@@ -164,6 +164,11 @@ func (s *JavaFullListener) EnterClassDeclaration(ctx *parser.ClassDeclarationCon
 		classNodeQueue = append(classNodeQueue, *currentNode)
 		// the member type is built in a node of its own: currentNode may be an element of the queue
 		memberNode := *currentNode
+		// the copy keeps what belongs to the file (package, imports); the supertypes and the calls of the enclosing type's field
+		// initialisers are not the member's
+		memberNode.Extend = ""
+		memberNode.Implements = nil
+		memberNode.FunctionCalls = nil
 		currentNode = &memberNode
 		currentType = "InnerStructures"
 	} else {
